@@ -506,7 +506,7 @@ func runCase(c Case, run *vh.Run, idx int) (res result, fatal string) {
 		res.log = env.Srv.Log()
 		res.arrival = br.Arrival
 		for i := range filters {
-			cl, dbe := sqlh.Classify(br.Errs[i], br.Panics[i])
+			cl, dbe := sqlh.Classify(br.Errs[i], br.Panics[i], sqlh.AnyFailed(res.log))
 			res.outcomes = append(res.outcomes, cl)
 			res.dbErr = res.dbErr || dbe
 			res.panics = append(res.panics, br.Panics[i])
@@ -569,7 +569,7 @@ func runCase(c Case, run *vh.Run, idx int) (res result, fatal string) {
 		return res, "unknown op " + c.Op
 	}
 	res.log = env.Srv.Log()
-	cl, dbe := sqlh.Classify(opErr, pt)
+	cl, dbe := sqlh.Classify(opErr, pt, sqlh.AnyFailed(res.log))
 	res.outcomes = []int{cl}
 	res.dbErr = dbe
 	res.panics = []string{pt}
@@ -618,7 +618,7 @@ func oracle(c Case, res result, run *vh.Run, idx int) {
 	case "query", "queryrow", "fullscan", "count":
 		for _, l := range limits {
 			if !filterComplies(t, c.Filter, l, pool) {
-				if res.outcomes[0] == sqlh.Proceeds {
+				if !res.errored[0] {
 					run.Fail(idx, "c12-noncomplying-read-not-rejected", res.detail, c)
 				}
 				if len(stmts) > 0 {
@@ -629,7 +629,7 @@ func oracle(c Case, res result, run *vh.Run, idx int) {
 	case "insert", "upsert", "update", "delete":
 		for _, l := range limits {
 			if !rowComplies(t, c.Row, carried(t, c.Op), l, pool) {
-				if res.outcomes[0] == sqlh.Proceeds {
+				if !res.errored[0] {
 					run.Fail(idx, "c12-noncomplying-write-not-rejected", res.detail, c)
 				}
 				if len(stmts) > 0 {
@@ -660,7 +660,7 @@ func oracle(c Case, res result, run *vh.Run, idx int) {
 		for i, f := range c.Filters {
 			for _, l := range limits {
 				if !filterComplies(t, f, l, pool) {
-					if res.outcomes[i] == sqlh.Proceeds {
+					if !res.errored[i] {
 						run.Fail(idx, "c12-noncomplying-batched-read-not-rejected", fmt.Sprintf("caller %d", i), c)
 					}
 					for _, b := range res.arrival {
